@@ -118,18 +118,19 @@ class Operator:
             )
 
             for universal_effect in self.lifted_universal_effects:
-                self.logger.debug(
-                    "Updating the action's signature to temporarily include the quantified parameter."
-                )
-                self.action.signature[
-                    universal_effect.quantified_parameter
-                ] = universal_effect.quantified_type
-                if pddl_object.type.name != universal_effect.quantified_type.name:
+                if not pddl_object.type.is_sub_type(universal_effect.quantified_type):
                     continue
 
                 self.logger.debug(
                     f"Trying to apply the universal effect on the object: {str(pddl_object)}"
                 )
+                # The quantified parameter extends a private copy of the signature, the schema is shared.
+                quantified_action = Action()
+                quantified_action.name = self.action.name
+                quantified_action.signature = {
+                    **self.action.signature,
+                    universal_effect.quantified_parameter: universal_effect.quantified_type,
+                }
                 extended_parameter_map = {
                     lifted_param: grounded_object
                     for lifted_param, grounded_object in zip(
@@ -145,7 +146,7 @@ class Operator:
                         lifted_discrete_effects=conditional_effect.discrete_effects,
                         lifted_numeric_effects=conditional_effect.numeric_effects,
                         domain=self.domain,
-                        action=self.action,
+                        action=quantified_action,
                     )
                     grounded_conditional_effect.ground_conditional_effect(
                         extended_parameter_map
@@ -155,11 +156,6 @@ class Operator:
                             "The antecedents of the universal effect hold."
                         )
                         grounded_conditional_effect.apply(current_state)
-
-                self.logger.debug(
-                    "Removing the temporarily added signature item from the action."
-                )
-                self.action.signature.pop(universal_effect.quantified_parameter)
 
     def is_applicable(self, state: State) -> bool:
         """Checks if the action is applicable on the current state.
